@@ -28,7 +28,11 @@ CLAIM = dict(
     "scaling != 0, translation/scaling act as documented (distances scale by sigma). Warp over Q for every shape, voxel "
     "size, origin and destination voxel: identity map => identical array, whole-voxel translation => zero-filled shift "
     "(also larger than the image) in coordinate / voxel / voxel-centre mode (2-D and 3-D), quarter turn => rot90 "
-    "(2-D, coordinate and voxel-centre mode), destination metadata. The voxel-centre shift needs floor rounding in the point "
+    "(2-D, coordinate and voxel-centre mode; 3-D about each axis in voxel-centre mode: warp_quarter_turn_3d; RotationCorrection's own "
+    "clip/astype(int) warp: rotcorr_quarter_turn_2d/3d), destination metadata. Voxel-mode quarter turn: the exact model IS rot90 "
+    "(warp_quarter_turn_voxel_exact) and every pre-image lies ON a rounding breakpoint where an arbitrarily small perturbation moves "
+    "the source voxel (quarter_turn_voxel_on_breakpoint), whereas in voxel-centre mode all pre-images are half-integers and any "
+    "perturbation < 1/2 is harmless (quarter_turn_center_robust); general guard floor_stable_of_fracDist. The voxel-centre shift needs floor rounding in the point "
     "constructors: the rounding is re-tabulated from the running constructors on every run (currently floor, so the shift theorem "
     "holds in all three modes for the code as it is); for astype(int) truncation the negation is proved by witness.",
     note="scipy from_rotvec matrices, numpy fancy assignment and float rounding are tied by correspondence (1e-12 / exact on "
@@ -492,6 +496,47 @@ def check_warp_case(ctx, d, case):
         if out.shape != exp.shape or not np.array_equal(out, exp):
             bad.append((f"C09:warp(quarter-turn,mode={mode}):not-rot90",
                         f"quarter turn ({'+' if sgn > 0 else '-'}pi/2) of shape {shape} in {mode} mode is not np.rot90"))
+    elif kind == "quarter3":
+        # 3-D quarter turn about matrix axis `axis` in voxel-centre mode (robust: pre-images are half-integers)
+        axis = case["axis"]
+        n0, n1, n2 = shape
+        dshape = {0: (n0, n2, n1), 1: (n2, n1, n0), 2: (n1, n0, n2)}[axis]
+        dh = {0: [h[0], h[2], h[1]], 1: [h[2], h[1], h[0]], 2: [h[1], h[0], h[2]]}[axis]
+        dst = call(mk_image, d, dshape, dh, None)
+        if isinstance(dst, Raised):
+            return [("C09:Image:raises", f"{dst}")]
+        t = {0: [0, n2, 0], 1: [0, 0, n0], 2: [n1, 0, 0]}[axis]
+        angles = [0.0, 0.0, 0.0]
+        angles[axis] = math.pi / 2
+        out = call(warp_impl, d, "center", src, dst, t, 1.0, angles, arr.copy())
+        exp = np.rot90(arr, 1, axes={0: (1, 2), 1: (2, 0), 2: (0, 1)}[axis])
+        if isinstance(out, Raised):
+            return [(f"C09:warp(quarter-turn-3d,axis={axis}):raises", f"{out}")]
+        if out.shape != exp.shape or not np.array_equal(out, exp):
+            bad.append((f"C09:warp(quarter-turn-3d,axis={axis},mode=center):not-rot90",
+                        f"+pi/2 about matrix axis {axis} of shape {shape} in voxel-centre mode is not np.rot90 in the plane"))
+    elif kind == "quarter-exact":
+        # Voxel-typed quarter turn with EXACT matrices set on the transformation: no float noise, must be rot90
+        sgn = case["sign"]
+        n0, n1 = shape
+        dst = call(mk_image, d, (n1, n0), [h[1], h[0]], None)
+        if isinstance(dst, Raised):
+            return [("C09:Image:raises", f"{dst}")]
+
+        def run():
+            T = mk_T(d, 2, "voxel", [n1 - 1, 0] if sgn > 0 else [0, n0 - 1], 1.0, [0.0])
+            T.rotation = np.array([[0.0, -1.0], [1.0, 0.0]]) * sgn
+            T.rotation_inv = np.array([[0.0, 1.0], [-1.0, 0.0]]) * sgn
+            C = d.TransformationCorrection(src.coordinatesystem, dst.coordinatesystem, T)
+            return C.correct_array(arr.copy())
+
+        out = call(run)
+        exp = np.rot90(arr, 1 if sgn > 0 else 3, axes=(0, 1))
+        if isinstance(out, Raised):
+            return [("C09:warp(quarter-turn,mode=voxel,exact-matrix):raises", f"{out}")]
+        if out.shape != exp.shape or not np.array_equal(out, exp):
+            bad.append(("C09:warp(quarter-turn,mode=voxel,exact-matrix):not-rot90",
+                        f"Voxel-typed quarter turn with exact integer matrices of shape {shape} is not np.rot90"))
     elif kind == "coordtransf":
         k = case["k"]
         dshape, dh, dorigin = tuple(case["dshape"]), [Fr(x) for x in case["dh"]], case.get("dorigin")
@@ -622,6 +667,18 @@ def oracle(ctx, d):
                     dorigin=[str(dy(rng, -4, 4, 2)) for _ in range(2)] if rng.random() < 0.5 else None,
                     dtype=rng.choice(dtypes), trail=rng.choice([[], [3]]))
         ctx.count(("quarter", case["mode"], tuple(shape), case["sign"]), nontrivial=int(np.prod(shape)) > 1)
+        report(ctx, check_warp_case(ctx, d, case), case)
+    for i in range(ctx.pick(18, 300)):
+        shape = [rng.choice([1, 2, 3, 4, 5]) for _ in range(3)]
+        case = dict(kind="quarter3", dim=3, mode="center", axis=i % 3, shape=shape, h=[str(Fr(1, rng.choice([1, 2]))) for _ in range(3)],
+                    dtype=rng.choice(dtypes), trail=rng.choice([[], [2]]))
+        ctx.count(("quarter3", i % 3, tuple(shape)), nontrivial=int(np.prod(shape)) > 1)
+        report(ctx, check_warp_case(ctx, d, case), case)
+    for i in range(ctx.pick(12, 200)):
+        shape = [rng.choice([1, 2, 3, 4, 5, 6, 7]) for _ in range(2)]
+        case = dict(kind="quarter-exact", dim=2, mode="voxel", shape=shape, h=["1/2", "1/2"], sign=1 if i % 2 == 0 else -1,
+                    dtype=rng.choice(dtypes), trail=rng.choice([[], [3]]))
+        ctx.count(("quarter-exact", tuple(shape), case["sign"]), nontrivial=int(np.prod(shape)) > 1)
         report(ctx, check_warp_case(ctx, d, case), case)
     for i in range(ctx.pick(3, 12)):
         shape = [rng.randint(2, 6), rng.randint(2, 6)]
